@@ -209,6 +209,41 @@ where
     }
 }
 
+/// Verification hooks: thin pass-throughs to private items, no logic.
+#[cfg(feature = "scylla-verif")]
+pub(crate) mod verif_hooks {
+    use super::ReplicationInfo;
+    use crate::cluster::node::Node;
+    use crate::routing::Token;
+    use std::sync::Arc;
+    use uuid::Uuid;
+
+    /// One datacenter "dc" whose i-th node owns token `100 * (i + 1)` and sits in `racks[i]`;
+    /// returns the indices of the NetworkTopologyStrategy replicas for `token`, in order.
+    pub(crate) fn nts_walk(racks: &[Option<String>], token: i64, rf: usize) -> Vec<usize> {
+        let nodes: Vec<Arc<Node>> = racks
+            .iter()
+            .enumerate()
+            .map(|(i, r)| {
+                Arc::new(Node::verif_new(
+                    Uuid::from_u128(i as u128 + 1),
+                    Some("dc".to_owned()),
+                    r.clone(),
+                ))
+            })
+            .collect();
+        let info = ReplicationInfo::new(
+            nodes
+                .iter()
+                .enumerate()
+                .map(|(i, n)| (Token::new(100 * (i as i64 + 1)), n.clone())),
+        );
+        info.nts_replicas_in_datacenter(Token::new(token), "dc", rf)
+            .map(|n| (n.host_id.as_u128() - 1) as usize)
+            .collect()
+    }
+}
+
 #[cfg(test)]
 mod tests {
     use crate::{
